@@ -266,7 +266,8 @@ func coqDeclPackage(p *gPackage, im *Img) (term string, extra bool) {
 	var tops []string
 	for _, tp := range p.Topics {
 		if tp.Kind == "publish" || tp.Kind == "" {
-			tops = append(tops, fmt.Sprintf("{| dt_name := %s; dt_msgs := %s |}", coqStr(tp.Name), coqStrs(tp.Messages)))
+			// the source-level declaration: the model derives the service name (ToCamel) and the name of an unnamed message
+			tops = append(tops, fmt.Sprintf("{| st_name := %s; st_named := %s |}", coqStr(tp.Name), coqStrs(tp.Messages)))
 		} else {
 			extra = true
 		}
@@ -280,7 +281,7 @@ func coqDeclPackage(p *gPackage, im *Img) (term string, extra bool) {
 			others = append(others, coqSchema(s))
 		}
 	}
-	term = fmt.Sprintf("{| dp_pkg := %s; dp_services := [%s]; dp_topics := [%s]; dp_schemas := [%s] |}",
+	term = fmt.Sprintf("{| dp_pkg := %s; dp_services := [%s]; dp_topics := map (topic_of_source Strcase.to_camel) [%s]; dp_schemas := [%s] |}",
 		coqStr(p.Pkg), strings.Join(svcs, ";"), strings.Join(tops, ";"), strings.Join(others, ";\n    "))
 	return term, extra
 }
